@@ -251,15 +251,13 @@ def obligations():
                           timeout=300, twins=['all_processed'] + (['retire_eq'] if p == ['a', 'a'] and limit is None else [])))
     obs.append(Ob('h_stream', {'uids': ['a', 'a'], 'limit': None, 'bookmarks': [1]}, tiers=('quick', 'thorough'), timeout=300))
     obs.append(Ob('h_stream', {'uids': ['a', 'b', 'c'], 'limit': 1, 'g0_zero': True, 'last_dur_zero': True}, tiers=('quick',), timeout=900))
+    # thorough: three events per cell (first arrival = origin, last duration 0: both w.l.o.g.); a cell that does not exhaust within
+    # the 15-minute cap is reported inconclusive. Four events per cell are out of reach (> 50 CPU-minutes each) and not claimed.
     for p in pats3:
-        for limit in (None, 1, 2):
-            obs.append(Ob('h_stream', {'uids': p, 'limit': limit, 'g0_zero': True}, tiers=('thorough',), timeout=3400))
-    for p in pats4:
-        obs.append(Ob('h_stream', {'uids': p, 'limit': None, 'g0_zero': True}, tiers=('thorough',), timeout=3400))
+        for limit in (None, 1):
+            obs.append(Ob('h_stream', {'uids': p, 'limit': limit, 'g0_zero': True, 'last_dur_zero': True}, tiers=('thorough',), timeout=900))
     obs.append(Ob('h_cancel', {'uids': ['a', 'a'], 'limit': None}, tiers=('quick', 'thorough'), timeout=600, twins=['cancel_mid_stream']))
     obs.append(Ob('h_cancel', {'uids': ['a', 'b'], 'limit': None}, tiers=('thorough',), timeout=1500, twins=['cancel_mid_stream']))
-    for p in (['a', 'a', 'a'], ['a', 'b', 'a']):
-        obs.append(Ob('h_cancel', {'uids': p, 'limit': None}, tiers=('thorough',), timeout=3000))
     for p in pats2:
         obs.append(Ob('h_fail', {'uids': p, 'limit': None}, tiers=('quick', 'thorough'), timeout=300,
                       twins=['error_escalated']))
